@@ -554,6 +554,13 @@ impl<'a, 'b> Gen<'a, 'b> {
             };
         }
         self.budget -= 1;
+        if self.o.luau && self.t.bool(14) {
+            // a type cast changes nothing at run time
+            self.stat("type_cast");
+            let inner = self.e_any(d - 1);
+            let ty = self.ty_of(&Kind::Any);
+            return paren(Expr::Cast { expr: Box::new(if inner.is_multi() { paren(inner) } else { inner }), ty: Box::new(ty) });
+        }
         match self.t.weighted(&[3, 3, 3, 4, 4, 2, 2, 2, 2]) {
             0 => self.e_num(d - 1),
             1 => self.e_str(d - 1),
@@ -1604,13 +1611,29 @@ impl<'a, 'b> Gen<'a, 'b> {
                 let ctor = Expr::Table(vec![TableItem::Named("n".into(), num(id as f64)), TableItem::Named("get".into(), f)]);
                 let decl = Stmt::Local { is_const: false, names: vec![Binding::new(name.clone())], values: vec![ctor] };
                 self.declare(&name, Kind::Any, false);
-                let recv = match self.t.choose(3) {
+                let recv = match self.t.choose(if self.o.luau { 6 } else { 4 }) {
                     0 => nm(&name),
                     1 => {
                         self.stat("method_call_probe_receiver");
                         callg("probe1", vec![nm(&name)])
                     }
-                    _ => paren(callg("probe", vec![nm(&name), num(0.0)])),
+                    2 => paren(callg("probe", vec![nm(&name), num(0.0)])),
+                    3 => {
+                        // receiver reached through an index whose key has a side effect
+                        self.stat("method_call_probe_receiver");
+                        index(Expr::Paren(Box::new(Expr::Table(vec![TableItem::Pos(nm(&name))]))), callg("probe1", vec![num(1.0)]))
+                    }
+                    4 => {
+                        // a cast does not make the receiver simple
+                        self.stat("method_call_cast_receiver");
+                        let ty = self.ty_of(&Kind::Any);
+                        paren(Expr::Cast { expr: Box::new(callg("probe1", vec![nm(&name)])), ty: Box::new(ty) })
+                    }
+                    _ => {
+                        self.stat("method_call_cast_receiver");
+                        let ty = self.ty_of(&Kind::Any);
+                        paren(Expr::Cast { expr: Box::new(nm(&name)), ty: Box::new(ty) })
+                    }
                 };
                 let arg = self.e_any(d);
                 let c = mcall(recv, "get", vec![arg]);
